@@ -21,6 +21,8 @@ def _stores(tier):
                            {'recorded': []}]}),
         ('lease', {'apps': [{'recorded': [], 'lease': '1h'},
                             {'recorded': []}]}),
+        ('longlease', {'apps': [{'recorded': [], 'lease': '20h'},
+                                {'recorded': [], 'lease': '2d'}]}),
         # a server offers a trait that is not in the cell-wide /traits list
         # (registered on the fly by create_server), one that is; instances
         # ask for them
@@ -74,11 +76,13 @@ def subharnesses(tier):
         spec = dict(store, nservers=2,
                     events=[['schedule', 2, {'traits': ['gpu']}]], between=bt)
         subs.append(('traits-schedule_gpu-%s' % bt, spec))
-    store = dict(_stores(tier))['lease']
-    for ev in (['none'], ['presence_down', 1]):
-        spec = dict(store, nservers=2, events=[ev],
-                    between='valid_until_pulled_in0')
-        subs.append(('lease-%s-valid_until_pulled_in0' % ev[0], spec))
+    for sname in ('lease', 'longlease'):
+        store = dict(_stores(tier))[sname]
+        for ev in (['none'], ['presence_down', 1]):
+            spec = dict(store, nservers=2, events=[ev],
+                        between='valid_until_pulled_in0')
+            subs.append(('%s-%s-valid_until_pulled_in0' % (sname, ev[0]),
+                         spec))
     return subs
 
 
@@ -111,7 +115,12 @@ def harness(S, spec):
         # the reboot date recorded for the server now lies before the expiry
         # of the leases placed on it (reboot schedule changed): the recorded
         # placement is restored all the same
-        b.nodes['/server.presence/s0'][0] = {'valid_until': g2.NOW + 60}
+        # (a reboot date has to be one of the partition's reboot buckets: the
+        # earliest one, tonight)
+        part = m1.cell.partitions['_default']
+        b.nodes['/server.presence/s0'][0] = {
+            'valid_until': part._reboot_buckets[0].timestamp}
+        S.reach('reboot_date_pulled_in')
     if bt == 'blackedout0':
         # the server is put on the blackout list; it still has its presence
         # and its instances (the running master would keep them there)
